@@ -475,6 +475,29 @@ def generics_rule(syn, prop, rule="C07.R1"):
                             arms_ok = True
             ok = ok and bool(gt) and arms_ok
             treat = "replaces concrete params" if arms_ok else "NO concrete replacement"
+        # an emitter that writes *all* kinds of parameters (lifetimes, types, consts) into one argument list must keep the
+        # declaration order: `struct S<const N: usize, T>` is legal, so a per-kind regrouping puts a type where a const belongs
+        if qual in ("generate_assoc_type", "generate_impl_block_header"):
+            kinds = [e for e in S.events(fn, "mcall") if e["method"] in ("lifetimes", "type_params", "const_params") and S.squash(e["recv"]) == "generics"]
+            one_pass = any(e["method"] == "iter" and S.squash(e["recv"]) == "generics.params" for e in src)
+            chained = any(e["method"] in ("chain", "partition", "sort_by_key", "sort_by", "sort") for e in S.events(fn, "mcall"))
+            in_order = one_pass and not chained and not (kinds and qual == "generate_assoc_type")
+            r.inst(fn=qual, argument_order="declaration order (single pass over generics.params)" if in_order else "regrouped", ok=in_order)
+            if not in_order:
+                r.fail(prop, "generic-arguments-regrouped %s" % qual,
+                       "%s does not emit the argument list in one pass over `generics.params`: for `struct S<const N: usize, T>` the list becomes `S<Dummy, N>` (E0747: type provided where a constant was expected)" % qual,
+                       fn["file"], fn["line"])
+        # the stand-in for a non-concrete type parameter is unconditional: a guarded `None` arm means some parameters are kept
+        if qual in ("generate_assoc_type", "DerivedTS::generate_export_test"):
+            for m in S.events(fn, "match"):
+                if "concrete" in S.squash(m["scrut"]) and ".get(" in S.squash(m["scrut"]):
+                    nones = [a for a in m["arms"] if S.pat_class(a["pat"]) == "none"]
+                    plain = len(nones) == 1 and not nones[0].get("guard") and re.search(r"#crate_rename::Dummy\}?\)?$", S.squash(nones[0]["body"]).rstrip(",")) is not None
+                    r.inst(fn=qual, none_arms=[(S.squash(a["pat"]), a.get("guard"), S.squash(a["body"])[:40]) for a in nones], every_free_parameter_erased=plain)
+                    if not plain:
+                        r.fail(prop, "generic-erasure-conditional %s" % qual,
+                               "%s does not replace every non-concrete type parameter by Dummy (None arms: %s): `WithoutGenerics` then keeps an argument, and the imports of the type's file depend on which instantiation is exported first" %
+                               (qual, [(S.squash(a["pat"]), a.get("guard")) for a in nones]), fn["file"], m["line"])
         r.inst(fn=qual, source=[S.squash(e["recv"]) + "." + e["method"] for e in src], treatment=treat, ok=ok)
         if not ok:
             r.fail(prop, "generic-emitter %s" % qual,
@@ -2090,4 +2113,77 @@ def empty_name_rule(syn, prop, rule="C04.R8"):
                "the empty name passes both validity tests (`all` is vacuously true, the first-character test defaults to valid) and is emitted unquoted: `#[serde(rename_all = \"PascalCase\")] struct S { __: u8 }` declares `{ : number, }`",
                fn["file"], fn["line"])
     r.floor = 1
+    return r
+
+
+def generated_state_rule(syn, prop, rule):
+    """the derive's output is a set of pure functions.  A `static` inside a method of a generic impl is shared by all
+    instantiations of the item (const-generic ones included), so a cached text is the text of whichever instantiation ran first."""
+    r = Result(rule, "no template of the derive emits state: no `static`, `thread_local!`, `OnceLock`/`OnceCell`/`LazyLock`/`lazy_static!` appears in generated code, so name()/inline()/decl() depend on nothing but their type arguments")
+    STATE = {"static", "thread_local", "OnceLock", "OnceCell", "LazyLock", "LazyCell", "lazy_static", "AtomicBool", "AtomicUsize", "Mutex", "RwLock"}
+    n = 0
+    for fn in syn.fns_in("macros/src/"):
+        for e in templates(fn):
+            n += 1
+            fl = [t for t in S.flat(e["tokens"]) if isinstance(t, str)]
+            hit = []
+            for i, t in enumerate(fl):
+                if t in STATE:
+                    # `'static` lifetimes are tokenised as a lifetime, `Self: 'static` has the apostrophe before it
+                    if t == "static" and i > 0 and fl[i - 1] in ("'", ":", "+") and (i == 0 or fl[i - 1] == "'"):
+                        continue
+                    hit.append(t)
+            if hit:
+                r.inst(fn=fn["qual"], where="%s:%s" % (fn["file"], e["line"]), state_tokens=sorted(set(hit)))
+                r.fail(prop, "generated-state %s %s" % (fn["qual"], ",".join(sorted(set(hit)))),
+                       "generated code contains %s: a static inside a method of a generic impl is one variable for all instantiations, so e.g. a cached inline() of `Polygon<const N>` returns the text of the first N asked for" % sorted(set(hit)),
+                       fn["file"], e["line"])
+    r.inst(templates_examined=n)
+    r.floor = 1
+    return r
+
+
+def generics_visit_rule(syn, prop, rule):
+    """derived visit_generics(): per free type parameter both the parameter and what is inside it"""
+    r = Result(rule, "the derived visit_generics() emits, for every non-concrete type parameter P, both `v.visit::<P>()` and `<P as TS>::visit_generics(v)`: the exporter skips types without an output path (Vec, Option, tuples), so the types inside such an argument are only reached through the second call")
+    fn = syn.fn("DerivedTS::generate_generics_fn", "macros/src/lib.rs")
+    if fn is None:
+        r.fail(prop, "anchor-missing generate_generics_fn", "not found")
+        return r
+    visit = walk = False
+    for e in templates(fn):
+        txt = " ".join(t for t in S.flat(e["tokens"]) if isinstance(t, str))
+        if re.search(r"v \. visit :: < # (\w+) > \( \)", txt):
+            visit = True
+        if re.search(r"< # (\w+) as # crate_rename :: TS > :: visit_generics \( v \)", txt):
+            walk = True
+    r.inst(fn=fn["qual"], visits_parameter=visit, walks_into_parameter=walk)
+    if not (visit and walk):
+        r.fail(prop, "derived-visit-generics-incomplete", "the derived visit_generics() %s: for `Handle<Vec<Leaf>>` with an otherwise unused parameter, `Leaf` is never visited and `Leaf.ts` is not written" %
+               ("does not walk into its parameters" if visit else "does not visit its parameters"), fn["file"], fn["line"])
+    r.floor = 1
+    return r
+
+
+def docs_init_rule(syn, prop, rule="C15.R7"):
+    """one item, one comment: the documentation of the declaration is the item's own"""
+    r = Result(rule, "every `DerivedTS { docs: .. }` takes the documentation of the container attribute it was built from, unchanged (`attr.docs.clone()` / `enum_attr.docs`): nothing else - a field's or variant's docs, a second block - is joined to it")
+    n = 0
+    for fn in syn.fns_in("macros/src/types/"):
+        for e in S.events(fn, "struct"):
+            if S.squash(e["path"]) != "DerivedTS":
+                continue
+            for fld in e["fields"]:
+                if fld["name"] != "docs":
+                    continue
+                n += 1
+                v = S.squash(fld["value"])
+                ok = re.match(r"^(attr|enum_attr|struct_attr)\.docs(\.clone\(\))?$", v) is not None
+                r.inst(fn=fn["qual"], docs=v, ok=ok)
+                if not ok:
+                    r.fail(prop, "docs-slot-init %s" % fn["qual"],
+                           "DerivedTS.docs is initialised with `%s`: the declaration would carry something other than the item's own doc comment (two `/** */` blocks, or a member's text in front of `export type`)" % fld["value"],
+                           fn["file"], fld.get("line") or e["line"])
+    r.floor = 12
+    r.stats["literals"] = n
     return r
